@@ -214,6 +214,9 @@ pub fn menu(ty: Ty, m: Menu) -> Vec<Atom> {
             ov("pet2: pet(id: $id, input: {nested: {a: $n}})", Ty::Pet, &[("id", "ID!"), ("n", "Int")]),
             ov("pet3: pet(id: \"p\", input: $input)", Ty::Pet, &[("input", "PetInput")]),
             o("search(text: \"t\")", Ty::Node),
+            // variables with (valid) default values
+            ov("ud: users(first: $nd, name: $sd)", Ty::User, &[("nd", "Int = 5"), ("sd", "String = \"x y\"")]),
+            ov("pd: pet(id: $idd, input: $pid)", Ty::Pet, &[("idd", "ID! = \"p\""), ("pid", "PetInput = {name: \"x\", n: 1, nested: {a: 2}}")]),
             ov("usersByIds(ids: $ids)", Ty::User, &[("ids", "[ID!]!")]),
             ov("ubi2: usersByIds(ids: $ids, names: $names)", Ty::User, &[("ids", "[ID!]!"), ("names", "[String]")]),
             o("ua: users(name: \"a b\")", Ty::User),
